@@ -3,24 +3,38 @@ From Coq Require Import Lia.
 Require Import Rapid.Model.Base Rapid.Model.Syntax Rapid.Model.Monad Rapid.Model.Engine Rapid.Model.Shrink.
 Require Import Rapid.Proofs.Signals Rapid.Proofs.EngineProofs.
 Require Import Rapid.Proofs.Glue.
+Require Import Rapid.Model.Corr Rapid.Generated.GeomTable.   (* for the example only *)
 Local Open Scope nat_scope.
 
 (* For every program, every source, every nesting: if anywhere in the execution of a test case - property
    body, Repeat action or invariant, Custom generator function (kept or rejected attempt), cleanup callback of
    the outer or of an inner T - user code calls Error/Errorf/Fail, Fatal/Fatalf/FailNow, or panics (any kind of
    signal), then the test case neither passes nor counts as invalid: it is a failure (or the model's fuel
-   artefact) - whatever happens afterwards, including a Skip by the property or by a cleanup function.
-   A panic is covered unless a cleanup function of a Custom generator's inner T runs out of data afterwards
-   (an internal invalid-data exception, which flags the run [dirty]): that exception replaces the panic and the
-   attempt is rejected - in the code as well.  Error/Fatal signals are covered unconditionally. *)
+   artefact) - whatever happens afterwards, including a Skip by the property or by a cleanup function, and
+   including a generator that runs out of data inside a cleanup function of a Custom generator's inner T (that
+   event is remembered on the inner T and no longer replaces a panic in flight).  Every kind of signal, panics
+   included, is covered unconditionally. *)
 Theorem C02_signal_fails_case :
   forall geom LF lvl p x k mm id,
     let o := checkOnce geom LF lvl p (start x) in
     In (USignal k mm id) (tr (w o)) ->
-    (k = KPanic -> dirty (w o) = false) ->
     ~ ((exists u, res o = Ok u) \/ (exists m, res o = Err (XInvalid m))).
 Proof. exact signal_fails_case_any. Qed.
 Print Assumptions C02_signal_fails_case.
+
+(* Non-vacuity, and the former counterexample of the panic case: a Custom generator function registers a cleanup
+   function that draws and then panics; on the empty buffer (and on a random source with a cleanup function whose
+   filter never succeeds) the cleanup function runs out of data - the panic is still what the test case ends with. *)
+Definition ex02_body (g : gexp) : prog :=
+  PCleanup 0 (PDraw g (fun _ => PRet VU)) (PFail KPanic 1 (MUser 7) (PRet VU)).
+Definition ex02_run (g : gexp) (x : source) : out unit :=
+  checkOnce (geom_of geom_tab) 100 3 (PDraw (GCustom (ex02_body g)) (fun _ => PRet VU)) (start x).
+Example C02_example_panic_then_cleanup_out_of_data :
+  (let o := ex02_run GBool (SBuf []) in
+   In (USignal KPanic (MUser 7) 1) (tr (w o)) /\ res o = Err (XPanic (MUser 7) (SUser 1)) /\ dirty (w o) = true)
+  /\ (let o := ex02_run (GFilter GBool (fun _ => false)) (SRnd (jsf_init 2)) in
+      In (USignal KPanic (MUser 7) 1) (tr (w o)) /\ res o = Err (XPanic (MUser 7) (SUser 1)) /\ dirty (w o) = true).
+Proof. vm_compute. repeat split; auto 10. Qed.
 
 (* the flag behind it: failed is sticky on every T and every such signal sets it (also forwarded from an
    inner Custom T to its parent) *)
